@@ -30,6 +30,19 @@ CHECKS = {
         "level_note": "Theorems are about the Lean model; the tie is differential. The field array limit (64 MiB) is enforced by the receive loop before decoding; decode_iff_valid carries it as a side condition.",
         "assumptions": ["the header region starts at offset 0 of the message buffer (16 = 0 mod 8), as the code's sub-cursor assumes"],
     },
+    "C04": {
+        "id": "C04",
+        "engine": "crash",
+        "trusted_base": COMMON_TB + [
+            "modelled, not verified: that the three Rust decoders behave like the one decoder model `dec` is the C03/C04 correspondence (differential); `work` is a step count whose unit steps (one read, one comparison, one character of a signature, <= 7 padding bytes) are assumed O(1); size_of / align_of are those of 64-bit targets; the recorded unsafe-site obligations (Site.ok) transcribe the safety sections of std's from_raw_parts / copy_nonoverlapping / set_len documentation",
+            "runtime facts no model exhibits, observed only by the worker-process runs: stack bytes per frame (2 MiB worker stacks), allocator behaviour (counting global allocator), std's unsafe-precondition checks in the debug-assertion build (confirmed active by a seeded unaligned from_raw_parts), Linux overcommit, a 30 s hang threshold",
+        ],
+        "level_text": "Proved in Lean on the decoder model for ARBITRARY byte strings, all types, both byte orders: a successful decode stays inside its limit and consumes at least one byte; bytes at or beyond the limit / outside the buffer cannot influence the result (every read is bounds-checked: dec_reads_only_below_limit, decodeFixed_reads_12, decodeHeader_reads_only_header); the element loops stop by themselves - any fuel >= the array's byte length gives the same result, the model's fuel is never the reason for a rejection (decList_fuel_sufficient, decEntries_fuel_sufficient, decodeFields_fuel_sufficient); an INSTRUMENTED copy of the decoder returns the same result (decW_same_result) plus counters, its recursion depth never exceeds the budget (<= 64 for validate / unmarshal, whatever the bytes: nesting bombs) and its work (decoder calls + loop iterations + string bytes + signature characters) is linear in the input length on success AND on failure: work <= max(size t, 256) * (1 + 65 * (lim - off)), whole bodies <= 255 + 256*65*n (decW_work_linear, validate_work_linear, body_work_linear); the slice fast path (Cow<[E]> / Vec<E>): every from_raw_parts / copy_nonoverlapping / set_len site meets its safety contract for every buffer, every base address mod 8 and both byte orders, borrows only when aligned, and returns exactly what the generic decoder returns (cow_sites_ok, vec_sites_ok, cow_eq_dec, vec_eq_dec); no unwrap is reachable after validation (sigIter_no_unwrap, has_sig_no_panic, get_param_parses_valid_only). What only the implementation can show - a crash is where it leaves the total model - is searched by WORKER PROCESSES (2 MiB stacks, catch_unwind, counting allocator, watchdog; a dying worker is bisected to the single input) running every decoding entry point (validate_marshalled, unmarshal_with_sig, typed get::<T> for 364 types incl. derived / macro types against matching AND mismatching signatures, get2/get3, get_param loop, unmarshall_all, unmarshal_header / dynamic_header / next_message, slice types) in an optimised and a debug-assertion build, both byte orders, the buffer at all 8 memory alignments, on valid encodings with all corruptions and truncations, nesting bombs to depth 10^5 (10^6 thorough), declared lengths up to 2^32-1 incl. real 64 MiB arrays, random bytes, signature-shape mismatches; accept/reject + consumed are compared with the model, alignment- or build-dependent results, decoder disagreements and allocations above 64 KiB + K*len are violations.",
+        "level_note": "Partial by nature: stack bytes per frame, allocator behaviour and optimiser-dependent undefined behaviour are runtime facts the model cannot exhibit; the proof covers recursion depth, iteration counts, work and the stated unsafe preconditions, crashes are found only by the worker-process runs (sampled inputs).",
+        "assumptions": ["validate_marshalled is called with offset <= buffer length (a larger offset is caller misuse, never reached from input bytes)", "native byte order = little endian in the slice model op"],
+        "timeout_quick": 1500,
+        "timeout_thorough": 7000,
+    },
     "C09": {
         "id": "C09",
         "engine": "conn",
@@ -215,6 +228,8 @@ ENGINES = [
      "kind_free_text": "Rust harness: scripted auth servers, forked uid children, address strings under a controlled environment"},
     {"name": "conn", "path": "harness/src", "serves_properties": [p for p in sorted(CHECKS.keys()) if CHECKS[p].get("engine") == "conn"],
      "kind_free_text": "Rust harness: real DuplexConn connected through the real auth code to an in-process scripted peer"},
+    {"name": "crash", "path": "harness/src/eng_c04.rs", "serves_properties": [p for p in sorted(CHECKS.keys()) if CHECKS[p].get("engine") == "crash"],
+     "kind_free_text": "Rust harness: worker processes (optimised + debug-assertion builds, 2 MiB stacks, counting allocator, watchdog) running every decoding entry point on corruptions, nesting bombs, huge declared lengths, random bytes at all 8 buffer alignments; a dying worker is bisected to the single input"},
     {"name": "fdconc", "path": "harness/src/eng_c12.rs", "serves_properties": [p for p in sorted(CHECKS.keys()) if CHECKS[p].get("engine") == "fdconc"],
      "kind_free_text": "Rust harness: deterministic scheduler over real threads running the real UnixFd code through the verif_hooks schedule points; enumerates every interleaving of small program sets"},
 ]
